@@ -29,6 +29,8 @@ const SOLVERS: [SolverType; 8] = [
 
 #[derive(Clone, Debug)]
 pub struct TrainCase {
+    /// liblinear cost parameter C (1.0 unless a case needs exact arithmetic)
+    pub cost: f64,
     pub cfg: TrainConfig,
     pub solver: usize,
     pub corpus: Vec<RefSentence>,
@@ -46,8 +48,8 @@ fn to_r(f: &Feature) -> RFeature {
 }
 
 const TAGS0: &[&str] = &["N", "V", "P", "Adj", "Adv"];
-const TAGS1: &[&str] = &["x", "y-z", "w w", "u", "v/w"];
-const TAGS2: &[&str] = &["k1", "k2", "k3", "k4", "k5"];
+const TAGS1: &[&str] = &["x", "y-z", "w w", " u", "v/w "];
+const TAGS2: &[&str] = &["k1", "k2", "\u{3000}k3", "k4\u{3000}", "\u{3000}"];
 
 #[derive(Clone, Copy, PartialEq, Eq, Debug)]
 pub enum CorpusClass {
@@ -186,7 +188,7 @@ pub fn gen_train_case(rng: &mut Rng, lo: u8, hi: u8, class: CorpusClass, with_ta
     }
     // rare: a dictionary word whose length crosses a multiple of 256, occurring in one long sentence
     if !corpus.is_empty() && rng.chance(1, 40) {
-        let len = *rng.pick(&[255usize, 256, 257, 258, 259, 260, 513]);
+        let len = *rng.pick(&[255usize, 256, 257, 258, 259, 260, 512, 513]);
         let word = text::text_from(rng, &alpha, len);
         let mut chars = text::text_from(rng, &alpha, 3);
         let start = chars.len();
@@ -227,7 +229,7 @@ pub fn gen_train_case(rng: &mut Rng, lo: u8, hi: u8, class: CorpusClass, with_ta
     }
     let w = |rng: &mut Rng| rng.urange(usize::from(lo), usize::from(hi)) as u8;
     let cfg = TrainConfig { char_w: w(rng), char_n: w(rng), type_w: w(rng), type_n: w(rng), dict, bucket: rng.urange(1, 5) as u8 };
-    TrainCase { cfg, solver: rng.below(8), corpus, tag_dict, eval, class: class_name(class) }
+    TrainCase { cost: 1.0, cfg, solver: rng.below(8), corpus, tag_dict, eval, class: class_name(class) }
 }
 
 fn case_json(tc: &TrainCase) -> J {
@@ -281,7 +283,7 @@ pub fn train_case(tc: &TrainCase) -> Result<Trained, String> {
     let _ = verif::take_boundary_log();
     let _ = verif::take_tag_logs();
     liblinear::toggle_liblinear_stdout_output(false);
-    let model = trainer.train(0.01, 1.0, SOLVERS[tc.solver]).map_err(|e| format!("train: {e}"))?;
+    let model = trainer.train(0.01, tc.cost, SOLVERS[tc.solver]).map_err(|e| format!("train: {e}"))?;
     Ok(Trained { model, blog: verif::take_boundary_log(), tlogs: verif::take_tag_logs(), examples })
 }
 
@@ -308,11 +310,15 @@ pub fn run_c10(ctx: &mut Ctx, from: u64, to: u64) {
         if k % 40 == 7 {
             // a window wider than 128 around boundaries that have more than 128 characters on both sides
             let alpha: Vec<char> = tc.corpus.iter().flat_map(|s| s.chars.iter().copied()).chain("ab".chars()).collect();
-            let n = rng.urange(280, 340);
+            // (sentence lengths around multiples of 256 included)
+            let n = if rng.chance(1, 2) { *rng.pick(&[256usize, 257, 258, 259, 512, 513, 514]) } else { rng.urange(280, 340) };
+            ctx.count("sentences_with_length_at_multiple_of_256", u64::from(n % 256 < 4));
             let chars = text::text_from(&mut rng, &alpha, n);
             let labels: Vec<u8> = (0..n - 1).map(|_| rng.weighted(&[5, 4, 1]) as u8).collect();
             tc.corpus.push(RefSentence { chars, labels, tags: vec![vec![]; n] });
-            if rng.chance(1, 2) {
+            if rng.chance(1, 3) {
+                // keep the drawn (small) windows: the sentence length alone is the point
+            } else if rng.chance(1, 2) {
                 tc.cfg.char_w = rng.urange(129, 200) as u8;
                 tc.cfg.char_n = tc.cfg.char_n.clamp(1, 2);
             } else {
@@ -472,7 +478,9 @@ pub fn run_c09(ctx: &mut Ctx, from: u64, to: u64) {
         let class = *rng.pick(&[CorpusClass::Normal, CorpusClass::Normal, CorpusClass::Normal, CorpusClass::PartialAnnotation]);
         // windows / n in 1..4 (window 0 is a separate, rarer class)
         let zero = k % 10 == 9;
-        let mut tc = gen_train_case(&mut rng, 1, 4, class, false);
+        // a quarter of the corpora carry tags: the trained model then has tag models and the tag-carrying scorers
+        // must compute the same learned boundary function
+        let mut tc = gen_train_case(&mut rng, 1, 4, class, k % 4 == 1);
         if zero {
             if rng.chance(1, 2) {
                 tc.cfg.char_w = 0;
@@ -486,6 +494,26 @@ pub fn run_c09(ctx: &mut Ctx, from: u64, to: u64) {
             } else {
                 tc.cfg.type_w = rng.urange(5, 12) as u8;
             }
+        }
+        if k % 50 == 17 {
+            // a learned n-gram that cancels its own suffix exactly: with the L1-loss SVM (dual) and a tiny cost every
+            // example ends at alpha = C (a power of two), so the weights are exact multiples of C:
+            // bigram XY@-1 = -C (from "XY"), unigram Y@0 = +C (from "XY", "Z|Y", "W|Y")
+            let pool: Vec<char> = "火星猫犬人地球あいうアイabc".chars().collect();
+            let mut cs = pool.clone();
+            rng.shuffle(&mut cs);
+            let (x, y, z, w) = (cs[0], cs[1], cs[2], cs[3]);
+            tc.cfg = TrainConfig { char_w: 1, char_n: 2, type_w: 0, type_n: 0, dict: vec![], bucket: 1 };
+            tc.corpus = vec![
+                RefSentence { chars: vec![x, y], labels: vec![0], tags: vec![vec![]; 2] },
+                RefSentence { chars: vec![z, y], labels: vec![1], tags: vec![vec![]; 2] },
+                RefSentence { chars: vec![w, y], labels: vec![1], tags: vec![vec![]; 2] },
+            ];
+            tc.tag_dict = vec![];
+            tc.eval = vec![vec![x, y], vec![z, y], vec![w, x, y], vec![y], vec![y, x, y, x, y]];
+            tc.solver = 3;
+            tc.cost = 1.0 / 64.0;
+            ctx.count("trainings_constructed_so_that_an_ngram_cancels_its_suffix", 1);
         }
         if k % 250 == 21 {
             // one evaluation sentence with character positions beyond 65535, training patterns near its end
@@ -559,6 +587,23 @@ pub fn run_c09(ctx: &mut Ctx, from: u64, to: u64) {
         for (f, w) in &log.weights {
             qw.insert(to_r(f), i64::from(*w));
         }
+        let model_bytes = tr.model.to_vec().unwrap_or_default();
+        let has_tag_models = !mir.tag_models.is_empty();
+        ctx.flag("trained_models_with_tag_models", has_tag_models);
+        let pr_tag = guard(|| {
+            if !has_tag_models {
+                return Ok(None);
+            }
+            let (m2, _) = vaporetto::Model::read_slice(&model_bytes).map_err(|e| format!("{e}"))?;
+            let p = Predictor::new(m2, true).map_err(|e| format!("{e}"))?;
+            let mut out = vec![];
+            for t in &tc.eval {
+                let mut s = Sentence::from_raw(to_string(t)).map_err(|e| format!("{e}"))?;
+                p.predict(&mut s);
+                out.push(s.boundary_scores().to_vec());
+            }
+            Ok::<_, String>(Some(out))
+        });
         let pr = guard(|| {
             let p = Predictor::new(tr.model, false).map_err(|e| format!("{e}"))?;
             let mut out = vec![];
@@ -585,6 +630,31 @@ pub fn run_c09(ctx: &mut Ctx, from: u64, to: u64) {
                 continue;
             }
         };
+        match pr_tag {
+            Ok(Ok(None)) => {}
+            Ok(Ok(Some(tag_scores))) => {
+                if let Some(i) = (0..scores.len()).find(|&i| tag_scores.get(i) != scores.get(i)) {
+                    ctx.violation(
+                        "C09:tag_carrying_predictor_scores_differ_from_plain_predictor",
+                        J::obj(vec![
+                            ("text", J::s(vgen::json::clip(&to_string(&tc.eval[i]), 80))),
+                            ("plain", J::ints(&scores[i][..scores[i].len().min(40)])),
+                            ("with_tag_prediction", J::ints(&tag_scores[i][..tag_scores[i].len().min(40)])),
+                            ("case", case_json(&tc)),
+                        ]),
+                    );
+                    continue;
+                }
+            }
+            Ok(Err(e)) => {
+                ctx.violation("C09:trained_model_rejected_by_predictor", J::obj(vec![("error", J::s(&e)), ("predict_tags", J::B(true)), ("case", case_json(&tc))]));
+                continue;
+            }
+            Err(p) => {
+                ctx.violation(&format!("C09:prediction_with_trained_model_panicked:{}", panic_site(&p)), J::obj(vec![("panic", J::s(&p)), ("predict_tags", J::B(true)), ("case", case_json(&tc))]));
+                continue;
+            }
+        }
         let mut nonzero = 0u64;
         'outer: for (t, sc) in tc.eval.iter().zip(&scores) {
             let types = ctypes(t);
@@ -721,6 +791,16 @@ pub fn run_c11(ctx: &mut Ctx, from: u64, to: u64) {
             }
             tc.cfg.char_n = tc.cfg.char_n.min(2);
             tc.cfg.type_n = tc.cfg.type_n.min(2);
+        }
+        if k % 45 == 31 {
+            // no character n-gram features at all and a dictionary whose words never occur in the corpus
+            if rng.chance(1, 2) {
+                tc.cfg.char_w = 0;
+            } else {
+                tc.cfg.char_n = 0;
+            }
+            tc.cfg.dict = vec!["\u{2603}\u{2603}".to_string(), "\u{2603}q\u{2604}".to_string()];
+            ctx.count("configs_without_char_ngrams_and_with_unseen_dictionary", 1);
         }
         if k % 60 == 17 {
             // a blank dictionary word next to real ones (an error is a legal answer, a panic is not)
